@@ -83,8 +83,15 @@ func init() {
 				return true
 			})
 			r.Site(hash.Decl.Pos(), "murmur.Hash purity")
-			r.whoMayCall(hash.Obj, false, map[string]string{
-				"partitioning.(*KeySpace).KeyGroup": "", "dkv/bloom.(*Filter).Add": "bloom filter", "dkv/bloom.(*Filter).MightHave": "bloom filter"})
+			allowedHash := map[string]string{
+				"partitioning.(*KeySpace).KeyGroup": "", "dkv/bloom.(*Filter).Add": "bloom filter", "dkv/bloom.(*Filter).MightHave": "bloom filter"}
+			// KeyGroup inlined into RangeIndex: the same expression, checked at that site
+			riFn := r.P.Func("partitioning", "(*KeySpace).RangeIndex")
+			riInline := r.usesCanonicalKeyGroup(riFn) && !r.exprCallsHashOtherwise(riFn)
+			if riInline {
+				allowedHash["partitioning.(*KeySpace).RangeIndex"] = "the canonical key-group expression written out"
+			}
+			r.whoMayCall(hash.Obj, false, allowedHash)
 			// nobody computes key groups another way: KeyGroup(...) conversions from hashes
 			kgFn := f.Obj
 			users := r.usersOf(kgFn, false)
@@ -92,6 +99,9 @@ func init() {
 				r.SiteStr("KeySpace.KeyGroup used in " + w)
 			}
 			for _, need := range []string{"workers/operator.(*KeyedStateStore).encodeDBKey", "workers/operator.(*KeyedStateStore).encodeSubjectKey", "workers/operator.(*TimerStore).encodeTimerKey", "partitioning.(*KeySpace).RangeIndex"} {
+				if need == "partitioning.(*KeySpace).RangeIndex" && riInline {
+					continue
+				}
 				if _, has := users[need]; !has {
 					r.Fail("KeyGroup-user:"+need, f.Decl.Pos(), nil, "%s no longer derives the key group through KeySpace.KeyGroup", need)
 				}
@@ -526,6 +536,9 @@ func init() {
 					def := resolveLocal(ri.Pkg.TypesInfo, ri.Decl.Body, ix.Index)
 					if call, ok := ast.Unparen(def).(*ast.CallExpr); ok && r.P.CalleeFunc(ri.Pkg.TypesInfo, call) == kgFn && len(call.Args) == 1 && r.isParam(ri, call.Args[0], 0) {
 						okRI = true
+					}
+					if r.canonicalKeyGroupExpr(ri, ix.Index) {
+						okRI = true // KeyGroup written out in place
 					}
 				}
 				return true
@@ -1318,4 +1331,54 @@ func (e *linEval) block(list []ast.Stmt) {
 			return
 		}
 	}
+}
+
+// canonicalKeyGroupExpr: e is `murmur.Hash(key, 0) % s.keyGroupCount` (conversions and locals
+// aside) with key the first parameter of fi — the key-group mapping written out in place.
+func (r *Run) canonicalKeyGroupExpr(fi *prog.FuncInfo, e ast.Expr) bool {
+	info := fi.Pkg.TypesInfo
+	hash := r.P.FuncObj("util/murmur", "Hash")
+	kgc := r.P.Field("partitioning", "KeySpace", "keyGroupCount")
+	e = stripConv(info, resolveLocal(info, fi.Decl.Body, stripConv(info, e)))
+	b, isB := ast.Unparen(e).(*ast.BinaryExpr)
+	if !isB || b.Op != token.REM || prog.SelField(info, stripConv(info, b.Y)) != kgc {
+		return false
+	}
+	h := resolveLocal(info, fi.Decl.Body, stripConv(info, b.X))
+	call, isC := ast.Unparen(h).(*ast.CallExpr)
+	if !isC || r.P.CalleeFunc(info, call) != hash || len(call.Args) != 2 || !r.isParam(fi, call.Args[0], 0) {
+		return false
+	}
+	tv, has := info.Types[call.Args[1]]
+	return has && tv.Value != nil && tv.Value.String() == "0"
+}
+
+// usesCanonicalKeyGroup: some expression of fi's body is the canonical key-group expression.
+func (r *Run) usesCanonicalKeyGroup(fi *prog.FuncInfo) bool {
+	found := false
+	inspect(fi.Decl.Body, func(nd ast.Node) bool {
+		if e, ok := nd.(*ast.BinaryExpr); ok && !found && r.canonicalKeyGroupExpr(fi, e) {
+			found = true
+		}
+		return !found
+	})
+	return found
+}
+
+// exprCallsHashOtherwise: fi calls murmur.Hash somewhere that is not part of a canonical
+// key-group expression.
+func (r *Run) exprCallsHashOtherwise(fi *prog.FuncInfo) bool {
+	info := fi.Pkg.TypesInfo
+	hash := r.P.FuncObj("util/murmur", "Hash")
+	n, canon := 0, 0
+	inspect(fi.Decl.Body, func(nd ast.Node) bool {
+		if call, ok := nd.(*ast.CallExpr); ok && r.P.CalleeFunc(info, call) == hash {
+			n++
+		}
+		if e, ok := nd.(*ast.BinaryExpr); ok && r.canonicalKeyGroupExpr(fi, e) {
+			canon++
+		}
+		return true
+	})
+	return n > canon
 }
